@@ -69,6 +69,11 @@ CHECKS["C14"] = dict(cat="exploration", engine="cache",
    text="2-3 handlers record every event while TableCache.Run dispatches from its own goroutine in a race-instrumented child; notification histories (update2 via Populate2, RFC update via Populate, multi-row and hand-over batches) include injected notifications that must fail to apply (insert of a cached uuid, modify/delete of unknown rows). Quiescence is reached through a sentinel row event; then the log of each handler is replayed onto empty tables and compared with Rows(), per-row legality and old-equals-previous-state are checked, and all handlers must hold identical logs. Race reports with a libovsdb frame are violations.",
    note="Outstanding events stay below the 65536-entry buffer (counted). Random handler delays vary the interleaving; schedules are sampled.", ref="4/C14")
 
+CHECKS["C07"] = dict(cat="exploration", engine="wire",
+   technique="reference-model monitor over raw JSON-RPC messages recorded by raw peers (per-transaction attribution through the server's synchronous notification), race detector on",
+   text="A real server in a race-instrumented child; 2-3 raw connections register up to 6 random monitor requests (any subset of tables/columns or columns omitted, all select flag combinations incl. omitted select, methods monitor/monitor_cond/monitor_cond_since); a writer connection commits generated transactions (GC, weak pruning, several rows, failing transactions). Per (transaction, monitor): at most one message, exactly one when a selected kind of change exists, none for no net effect or for a failed transaction, right method and id, every changed row has an entry, no entry for unchanged rows/deselected kinds/unrequested tables or columns unless vacuous, and applying the entry to the pre-row yields the post-row on the monitored projection (v1: new overlaid on old; v2: update2 difference rules). Held = on the pairs observed.",
+   note="Monitor conditions are not used (ignored by the built-in server). Snapshots of the server database are taken in-process.", ref="4/C07")
+
 NOT_YET = "check not built yet (work in progress in this round); no claim is made"
 
 def main():
